@@ -120,6 +120,8 @@ class Spec:
             return Report(Sym(rt, rt.const(self.report_type)), dict(self.report_fields(a))), st
         ret_ty = self.ret_ty(ex)
         if ret_ty is None:
+            if getattr(self, "returns_none", False):
+                return None, st
             raise PyvcUnsupported(f"opaque call to {self.key} without return type")
         res = fresh_value(ret_ty, "ret_" + self.key.split("::")[1].replace(".", "_"))
         for c in self.post:
